@@ -7,3 +7,4 @@ def rules(ctx):
     S.c10_rules(ctx)
     S.c01_r6_checksums_final(ctx)
     S.c01_r5_cow(ctx)
+    S.walker_rules(ctx)
